@@ -5,7 +5,7 @@ import sys
 from .. import core
 
 
-def gen_script(rnd, R, L):
+def gen_script(rnd, R, L, unkeyed=False):
     """acyclic call graph over keys (rule, pos): calls go to a larger position, or to the same
     position and a larger rule index (the rank hypothesis of the theorem)"""
     keys = [(r, p) for p in range(L + 1) for r in range(R)]
@@ -19,8 +19,14 @@ def gen_script(rnd, R, L):
                 break
             # bias to near keys so that keys are shared between callers
             c = rnd.choice(lower[:max(1, min(len(lower), 6))]) if rnd.random() < 0.8 else rnd.choice(lower)
-            calls.append(c)
+            calls.append(('k',) + c)
         scr[(r, p)] = calls
+    # a few calls go through an unhashable key (a parameterised rule called with an unhashable argument):
+    # _run evaluates those in a frame with key None, never stored and never looked up
+    if unkeyed:
+        sites = [(k, i) for k, cs in scr.items() for i in range(len(cs))]
+        for (k, i) in rnd.sample(sites, min(len(sites), rnd.randrange(1, 5))):
+            scr[k][i] = ('u',) + scr[k][i][1:]
     # a few failing leaves: a body that calls a key with "fail" marker is modelled by ... (none: all bodies succeed
     # unless a callee fails; failure enters through the dedicated rule R-1 at odd positions)
     return scr
@@ -31,8 +37,24 @@ class Failed(Exception):
         self.pos = pos
 
 
+class Unhashable:
+    """stands for a parse function whose arguments cannot be hashed"""
+    def __init__(self, f):
+        self.f = f
+
+    def __call__(self, text, pos):
+        return self.f(text, pos, keyed=False)
+
+    def __eq__(self, other):
+        return self is other
+
+    def __hash__(self):
+        raise TypeError('unhashable argument')
+
+
 def run_real(g, scr, start, R, failing):
     log = []
+    ustarts = [0]
 
     def errfun(text, pos):
         raise Failed(pos)
@@ -40,14 +62,17 @@ def run_real(g, scr, start, R, failing):
     funcs = {}
 
     def make(r):
-        def f(_text, _pos):
-            log.append((r, _pos))
+        def f(_text, _pos, keyed=True):
+            if keyed:
+                log.append((r, _pos))
+            else:
+                ustarts[0] += 1
             if (r, _pos) in failing:
                 yield (False, errfun, _pos)
                 return
             acc, p = 1, _pos
-            for (r2, p2) in scr[(r, _pos)]:
-                st, v, q = yield (3, funcs[r2], p2)
+            for (kind, r2, p2) in scr[(r, _pos)]:
+                st, v, q = yield (CALL, funcs[r2] if kind == 'k' else Unhashable(funcs[r2]), p2)
                 if not st:
                     yield (False, errfun, q)
                     return
@@ -60,21 +85,24 @@ def run_real(g, scr, start, R, failing):
     text = 'x' * 64
     try:
         v = g._run(text, start[1], funcs[start[0]], False)
-        return ('ok', v), log
+        return ('ok', v), log, ustarts[0]
     except Failed as e:
-        return ('fail', e.pos), log
+        return ('fail', e.pos), log, ustarts[0]
 
 
 def machine_stream(R_, tier, rnd):
     sys.path.insert(0, core.REPO)
     from sourcer import Grammar
+    from sourcer.expressions.constants import CALL as CALL_
+    global CALL
+    CALL = CALL_
     g = Grammar('start = "x"')
     n = 1500 if tier == 'quick' else 30000
     reqs, meta = [], []
     for i in range(n):
         R = rnd.choice([1, 2, 3, 4, 5])
         L = rnd.choice([0, 1, 2, 3, 5, 8])
-        scr = gen_script(rnd, R, L)
+        scr = gen_script(rnd, R, L, unkeyed=(i % 3 == 2))
         failing = set()
         if rnd.random() < 0.4:
             ks = list(scr)
@@ -86,20 +114,23 @@ def machine_stream(R_, tier, rnd):
         scr_m = []
         for k, cs in scr.items():
             scr_m.append([list(k), [list(c) for c in cs]])
-        reqs.append(core.sx(['runscript', 4000, list(start), scr_m]))
+        reqs.append(core.sx(['runscript', 20000, list(start), scr_m]))
         meta.append((scr, start, R, failing))
     # the extracted machine has no failing leaves of its own: restrict the comparison to scripts without them,
     # and check failures separately on the implementation (at-most-once must hold there too)
     outs = core.run_driver(reqs, raw=False)
     for (scr, start, R, failing), o in zip(meta, outs):
-        (res, log) = run_real(g, scr, start, R, set())
-        fin, cur, mlog = o[0], o[1], [tuple(x) for x in o[2]]
+        (res, log, ust) = run_real(g, scr, start, R, set())
+        fin, cur, mlog, must = o[0], o[1], [tuple(x) for x in o[2]], o[3]
         key = (len(scr), sum(len(v) for v in scr.values()))
-        R_.count('machine', (key, tuple(sorted((k, tuple(v)) for k, v in scr.items()))), nontrivial=len(log) > 1)
+        has_u = any(c[0] == 'u' for v in scr.values() for c in v)
+        R_.count('machine-unkeyed-calls' if has_u else 'machine', (key, tuple(sorted((k, tuple(v)) for k, v in scr.items()))),
+                 nontrivial=len(log) > 1)
         want = ('ok', cur[1]) if cur[0] == 'true' else ('fail', cur[2])
-        if fin != 'true' or res != want or log != mlog:
+        if fin != 'true' or res != want or log != mlog or ust != must:
             R_.disagree('machine', {'script': {str(k): v for k, v in scr.items()}, 'start': start},
-                        {'result': res, 'log': log}, {'finished': fin, 'cur': cur, 'log': mlog})
+                        {'result': res, 'log': log, 'unkeyed_starts': ust},
+                        {'finished': fin, 'cur': cur, 'log': mlog, 'unkeyed_starts': must})
         else:
             R_.traces += 1
         if len(set(log)) != len(log):
@@ -109,7 +140,7 @@ def machine_stream(R_, tier, rnd):
             R_.samples.append({'script': {str(k): v for k, v in scr.items()}, 'log': log, 'result': res})
         # with failing leaves: at-most-once and termination on the real _run
         if failing:
-            (res2, log2) = run_real(g, scr, start, R, failing)
+            (res2, log2, _u2) = run_real(g, scr, start, R, failing)
             R_.count('machine-failing', (key, tuple(sorted(failing))))
             if len(set(log2)) != len(log2):
                 R_.counterexample('machine-failing', 'body-evaluated-twice', {'script': {str(k): v for k, v in scr.items()},
